@@ -1,10 +1,16 @@
 package nodis
 
 import (
+	"errors"
+
 	"github.com/diiyw/nodis/ds"
 	"github.com/diiyw/nodis/ds/zset"
 	"github.com/diiyw/nodis/patch"
 )
+
+// errNoSortedSet is what ZRank, ZRevRank and ZScore report for a key that does not exist: no member
+// has a rank or a score there
+var errNoSortedSet = errors.New("key not found")
 
 func (n *Nodis) newZSet() ds.Value {
 	return zset.NewSortedSet()
@@ -122,6 +128,7 @@ func (n *Nodis) ZRank(key string, member string) (v int64, err error) {
 	_ = n.exec(func(tx *Tx) error {
 		meta := tx.readKey(key)
 		if !meta.isOk() {
+			err = errNoSortedSet
 			return nil
 		}
 		v, err = meta.value.(*zset.SortedSet).ZRank(member)
@@ -148,12 +155,13 @@ func (n *Nodis) ZRevRank(key string, member string) (v int64, err error) {
 	_ = n.exec(func(tx *Tx) error {
 		meta := tx.readKey(key)
 		if !meta.isOk() {
+			err = errNoSortedSet
 			return nil
 		}
 		v, err = meta.value.(*zset.SortedSet).ZRevRank(member)
 		return nil
 	})
-	return v, nil
+	return v, err
 }
 
 func (n *Nodis) ZRevRankWithScore(key string, member string) (int64, *zset.Item) {
@@ -174,6 +182,7 @@ func (n *Nodis) ZScore(key string, member string) (v float64, err error) {
 	_ = n.exec(func(tx *Tx) error {
 		meta := tx.readKey(key)
 		if !meta.isOk() {
+			err = errNoSortedSet
 			return nil
 		}
 		v, err = meta.value.(*zset.SortedSet).ZScore(member)
